@@ -434,4 +434,9 @@ def c14(tier, seed, replay):
         work.cleanup()
 
 
-CHECKS = {'C11': c11, 'C20': c20, 'C05': c05, 'C12': c12, 'C14': c14}
+def c19_entry(tier, seed, replay):
+    import c19
+    return c19.c19(tier, seed, replay)
+
+
+CHECKS = {'C11': c11, 'C20': c20, 'C05': c05, 'C12': c12, 'C14': c14, 'C19': c19_entry}
